@@ -14,26 +14,36 @@ Proof. intros Hv H. apply upd_val_spec in H. intuition. Qed.
 
 Ltac unf := unfold cons, stk, value, value_d, net, stake in *; simpl in *.
 
-Lemma deposit_cons a s st a0 x s' : no_slash st = true -> deposit s st a0 x = Some s' ->
+Lemma deposit_cons_lst a s st a0 x s' : no_slash st = true -> deposit_lst s st a0 x = Some s' ->
   cons a s' = cons a s /\ stk a s' = stk a s.
 Proof.
-  intros W H. unfold deposit in H. dmatch H. inversion H; subst; clear H.
+  intros W H. unfold deposit_lst in H. dmatch H. inversion H; subst; clear H.
   apply upd_sa_spec in Heqo0. destruct Heqo0 as (r' & -> & _ & Hw & _).
   apply upd_tot_spec in Heqo1. destruct Heqo1 as (t & t' & G & -> & _ & ->).
   simpl in G. unf. rewrite value_wd_sset, Hw. unfold sa_key. rewrite if_asset_join by assumption.
   rewrite (tot_of_sset a _ _ t) by assumption.
   unfold if_eq. destruct (String.eqb a0 a); lia.
 Qed.
-
-Lemma withdraw_cons a s st a0 x s' : no_slash st = true -> withdraw s st a0 x = Some s' ->
+Lemma deposit_cons a s st a0 x s' : no_slash st = true -> deposit s st a0 x = Some s' ->
   cons a s' = cons a s /\ stk a s' = stk a s.
 Proof.
-  intros W H. unfold withdraw in H. dmatch H. inversion H; subst; clear H.
+  intros W H. apply deposit_shape in H. destruct H as [(_ & ->)|(_ & H)]; [auto|]. eapply deposit_cons_lst; eauto.
+Qed.
+
+Lemma withdraw_cons_lst a s st a0 x s' : no_slash st = true -> withdraw_lst s st a0 x = Some s' ->
+  cons a s' = cons a s /\ stk a s' = stk a s.
+Proof.
+  intros W H. unfold withdraw_lst in H. dmatch H. inversion H; subst; clear H.
   apply upd_sa_spec in Heqo0. destruct Heqo0 as (r' & -> & _ & Hw & _).
   apply upd_tot_spec in Heqo1. destruct Heqo1 as (t & t' & G & -> & _ & ->).
   simpl in G. unf. rewrite value_wd_sset, Hw. unfold sa_key. rewrite if_asset_join by assumption.
   rewrite (tot_of_sset a _ _ t) by assumption.
   unfold if_eq. destruct (String.eqb a0 a); lia.
+Qed.
+Lemma withdraw_cons a s st a0 x s' : no_slash st = true -> withdraw s st a0 x = Some s' ->
+  cons a s' = cons a s /\ stk a s' = stk a s.
+Proof.
+  intros W H. apply withdraw_shape in H. destruct H as [(_ & ->)|(_ & H)]; [auto|]. eapply withdraw_cons_lst; eauto.
 Qed.
 
 Lemma cons_ext a s1 s2 : sa s1 = sa s2 -> oa s1 = oa s2 -> ur s1 = ur s2 -> glog s1 = glog s2 -> cons a s1 = cons a s2.
@@ -44,26 +54,58 @@ Proof. intros A B. unfold stk. rewrite A, B. reflexivity. Qed.
 Lemma append_staker_cons a s k x : cons a (append_staker s k x) = cons a s /\ stk a (append_staker s k x) = stk a s.
 Proof. unfold append_staker. destruct (mem x _); split; try reflexivity. Qed.
 
+(* effect of the three native / non-native difference points on the conserved quantities *)
+Lemma take_cons a s st a0 x s1 : no_slash st = true -> take_from_staker s st a0 x = Some s1 ->
+  cons a s1 = cons a s - if_eq a0 a x /\ stk a s1 = stk a s /\ oa s1 = oa s /\ ur s1 = ur s.
+Proof.
+  intros W H. pose proof (take_same _ _ _ _ _ H) as (U & _ & _ & _ & _ & O & _ & T & _).
+  apply take_spec in H. destruct H as [(N & s0 & B & ->)|(N & E)].
+  - apply bank_send_same in B. destruct B as ((U0 & _ & _ & _ & _ & O0 & _ & T0 & _) & S0 & L0).
+    unfold cons, stk, value, value_d, dump_of, log_ev. simpl. rewrite U0, O0, S0, T0, L0.
+    unfold net, stake. simpl. repeat split; lia.
+  - apply upd_sa_spec in E. destruct E as (r1 & -> & _ & Hw & _).
+    unfold cons, stk, value, value_d, dump_of. simpl. rewrite value_wd_sset, Hw. unfold sa_key.
+    rewrite if_asset_join by assumption. unfold if_eq. destruct (String.eqb a0 a); repeat split; lia.
+Qed.
+
+Lemma book_cons a s st a0 x s1 : book_pending s st a0 x = Some s1 ->
+  cons a s1 = cons a s /\ stk a s1 = stk a s /\ oa s1 = oa s /\ ur s1 = ur s.
+Proof.
+  intros H. apply book_spec in H. destruct H as [(_ & ->)|(_ & E)]; [auto|].
+  apply upd_sa_spec in E. destruct E as (r1 & -> & _ & Hw & _).
+  unfold cons, stk, value, value_d, dump_of. simpl. rewrite value_wd_sset, Hw.
+  unfold if_asset. destruct (String.eqb _ a); repeat split; lia.
+Qed.
+
+Lemma pay_cons a s r s1 : no_slash (ur_staker r) = true -> pay_staker s r = Some s1 ->
+  cons a s1 = cons a s + if_eq (ur_asset r) a (ur_act r) /\ stk a s1 = stk a s /\ oa s1 = oa s /\ ur s1 = ur s.
+Proof.
+  intros W H. apply pay_spec in H. destruct H as [(N & s0 & B & ->)|(N & E)].
+  - apply bank_send_same in B. destruct B as ((U0 & _ & _ & _ & _ & O0 & _ & T0 & _) & S0 & L0).
+    unfold cons, stk, value, value_d, dump_of, log_ev. simpl. rewrite U0, O0, S0, T0, L0.
+    unfold net, stake. simpl. repeat split; lia.
+  - apply upd_sa_spec in E. destruct E as (r1 & -> & _ & Hw & _).
+    unfold cons, stk, value, value_d, dump_of. simpl. rewrite value_wd_sset, Hw. unfold sa_key.
+    rewrite if_asset_join by assumption. unfold if_eq. destruct (String.eqb (ur_asset r) a); repeat split; lia.
+Qed.
+
 Lemma delegate_cons a s st a0 op x s' : no_slash st = true -> no_slash op = true -> delegate s st a0 op x = Some s' ->
   cons a s' = cons a s /\ stk a s' = stk a s.
 Proof.
   intros W1 W2 H. unfold delegate in H.
   destruct (x <=? 0); [discriminate|]. destruct (negb (mem op (operators s))); [discriminate|].
-  destruct (sget (sa s) (sa_key st a0)) as [info|]; [|discriminate].
-  destruct (sa_wd info <? x); [discriminate|].
-  destruct (upd_sa s (sa_key st a0) 0 (- x) 0) as [s1|] eqn:E1; [|discriminate].
+  destruct (take_from_staker s st a0 x) as [s1|] eqn:E1; [|discriminate].
   match type of H with match ?e with _ => _ end = _ => destruct e as [sh|]; [|discriminate] end.
   destruct (upd_oa s1 (oa_key op a0) x 0 sh 0) as [s2|] eqn:E2; [|discriminate].
   destruct (upd_dg s2 (dg_key st a0 op) sh 0) as [[s3 z]|] eqn:E3; [|discriminate].
   inversion H; subst; clear H.
   destruct (append_staker_cons a s3 (oa_key op a0) st) as [-> ->].
-  apply upd_sa_spec in E1. destruct E1 as (r1 & -> & _ & Hw & _).
+  destruct (take_cons a _ _ _ _ _ W1 E1) as (C1 & S1 & O1 & U1).
   apply upd_oa_spec in E2. destruct E2 as (r2 & -> & Ha & _).
   apply upd_dg_spec in E3. destruct E3 as (r3 & -> & _).
-  unfold cons, stk, value, value_d, dump_of. simpl.
-  simpl in Ha. rewrite value_wd_sset, value_pool_sset, Hw, Ha.
-  unfold sa_key, oa_key. rewrite !if_asset_join by assumption.
-  unfold if_eq. destruct (String.eqb a0 a); split; lia.
+  rewrite <- S1. unfold cons in C1. unfold cons, stk, value, value_d, dump_of in *. simpl in *.
+  rewrite value_pool_sset, Ha. unfold oa_key. rewrite !if_asset_join by assumption.
+  unfold if_eq in *. destruct (String.eqb a0 a); split; lia.
 Qed.
 
 Lemma set_record_cons a s r s' : set_record s r = Some s' ->
@@ -97,13 +139,13 @@ Proof.
   destruct (sget (dg s) (dg_key st a0 op)) as [d|]; [|discriminate].
   destruct (sget (oa s) (oa_key op a0)) as [o|] eqn:Eo; [|discriminate].
   destruct (shares_from_tokens (oa_tsh o) x (oa_amt o)) as [sh0|]; [|discriminate].
-  destruct (sh0 >? dg_sh d); [discriminate|].
+  match type of H with (if ?c then _ else _) = _ => destruct c; [discriminate|] end.
   destruct (shares_from_tokens (oa_tsh o) 1 (oa_amt o)) as [tol|]; [|discriminate].
-  set (sh := if dg_sh d - sh0 <? tol then dg_sh d else sh0) in *.
+  set (sh := if sh0 >? dg_sh d then dg_sh d else if dg_sh d - sh0 <? tol then dg_sh d else sh0) in *.
   destruct (sh <=? 0); [discriminate|]. destruct (sh >? oa_tsh o); [discriminate|].
   match type of H with match ?e with _ => _ end = _ => destruct e as [tok|]; [|discriminate] end.
   destruct (upd_oa s (oa_key op a0) (- tok) tok (- sh) 0) as [s1|] eqn:E1; [|discriminate].
-  destruct (upd_sa s1 (sa_key st a0) 0 0 tok) as [s2|] eqn:E2; [|discriminate].
+  destruct (book_pending s1 st a0 tok) as [s2|] eqn:E2; [|discriminate].
   destruct (upd_dg s2 (dg_key st a0 op) (- sh) tok) as [[s3 z]|] eqn:E3; [|discriminate].
   match type of H with match ?e with _ => _ end = _ => destruct e as [s4|] eqn:E4; [|discriminate] end.
   match type of H with match set_record s4 ?rr with _ => _ end = _ => set (r0 := rr) in *;
@@ -112,13 +154,12 @@ Proof.
   { apply (set_record_cons a) in E5. destruct E5 as [C5 S5]. rewrite C5, S5.
     assert (cons a s4 = cons a s3 /\ stk a s4 = stk a s3) as [-> ->].
     { destruct z; [eapply delete_staker_cons; eauto | inversion E4; subst; auto]. }
-    apply upd_oa_spec in E1. destruct E1 as (r1 & -> & Ha & _).
-    apply upd_sa_spec in E2. destruct E2 as (r2 & -> & _ & Hw & _).
     apply upd_dg_spec in E3. destruct E3 as (r3 & -> & _).
-    unfold cons, stk, value, value_d, dump_of. simpl. simpl in Hw.
-    rewrite value_wd_sset, value_pool_sset, Hw, Ha.
-    unfold sa_key, oa_key. rewrite !if_asset_join by assumption.
-    unfold if_eq. destruct (String.eqb a0 a); split; lia. }
+    destruct (book_cons a _ _ _ _ _ E2) as (C2 & S2 & O2 & U2).
+    apply upd_oa_spec in E1. destruct E1 as (r1 & -> & Ha & _).
+    unfold cons in C2. unfold cons, stk, value, value_d, dump_of in *. simpl in *.
+    rewrite value_pool_sset, Ha in C2. unfold oa_key in C2. rewrite !if_asset_join in C2 by assumption.
+    unfold if_eq in *. destruct (String.eqb a0 a); split; lia. }
   destruct (mem op (validators s)).
   - pose proof (hold_inc_cons a s5 (rkey r0)) as [Ch Sh].
     destruct (hold_inc s5 (rkey r0)) as [s6 [| |]]; try discriminate. inversion H; subst. simpl in *. split; congruence.
@@ -221,20 +262,19 @@ Proof.
     apply (set_record_cons a) in E. destruct E as [-> ->].
     destruct (del_record_cons a s r) as [-> ->]. rewrite G. simpl. split; lia.
   - destruct (upd_dg s _ 0 (- ur_amt r)) as [[s1 z]|] eqn:E1; [|auto].
-    destruct (upd_sa s1 _ 0 (ur_act r) (- ur_amt r)) as [s2|] eqn:E2; [|auto].
+    destruct (pay_staker s1 r) as [s2|] eqn:E2; [|auto].
     destruct (upd_oa s2 _ 0 (- ur_amt r) 0 0) as [s3|] eqn:E3; [|auto].
     destruct (del_record_cons a s3 r) as [-> ->].
     pose proof E1 as F1. pose proof E2 as F2. pose proof E3 as F3.
-    apply upd_dg_frame in F1. apply upd_sa_frame in F2. apply upd_oa_frame in F3.
+    apply upd_dg_frame in F1. apply pay_frame in F2. apply upd_oa_frame in F3.
     destruct F1 as (U1 & _), F2 as (U2 & _), F3 as (U3 & _).
     replace (ur s3) with (ur s) by congruence. rewrite G.
+    destruct (pay_cons a _ _ _ W1 E2) as (C2 & S2 & O2 & _).
     apply upd_dg_spec in E1. destruct E1 as (r1 & -> & _).
-    apply upd_sa_spec in E2. destruct E2 as (r2 & -> & _ & Hw & _).
     apply upd_oa_spec in E3. destruct E3 as (r3 & -> & Ha & _).
-    unfold cons, stk, value, value_d, dump_of. simpl. simpl in Hw, Ha.
-    rewrite value_wd_sset, value_pool_sset, Hw, Ha.
-    unfold sa_key, oa_key. rewrite !if_asset_join by assumption.
-    unfold if_eq. destruct (String.eqb (ur_asset r) a); split; lia.
+    unfold cons in C2. unfold cons, stk, value, value_d, dump_of in *. simpl in *.
+    rewrite value_pool_sset, Ha. unfold oa_key. rewrite !if_asset_join by assumption.
+    unfold if_eq in *. destruct (String.eqb (ur_asset r) a); split; lia.
 Qed.
 
 Lemma step_cons a s o : idx_inv s -> wf_op o = true ->
@@ -248,7 +288,7 @@ Proof.
   - rewrite !andb_true_iff in Wf. destruct Wf as [[W1 W2] _].
     destruct (undelegate s staker asset operator x nonce tx) as [[s' r]|] eqn:E; simpl; [|auto].
     exact (undelegate_cons a s staker asset operator x nonce tx s' r W1 W2 E).
-  - unfold rec_wf in Wf. rewrite !andb_true_iff in Wf. destruct Wf as [[[W1 W2] _] _]. apply genesis_load_cons; assumption.
+  - unfold rec_wf in Wf. rewrite !andb_true_iff in Wf. destruct Wf as [[[[W1 W2] _] _] _]. apply genesis_load_cons; assumption.
   - destruct prop as [p|]; simpl; [|auto].
     destruct (slash s operator eh p) as [s'|] eqn:E; simpl; [|auto]. exact (slash_cons a s operator eh p s' E).
   - apply hold_inc_cons.
